@@ -119,6 +119,12 @@ func Verif_C08_lookup() {
 	resp, needRefresh := c.LookupDnsRespCache_(c08Query("example.com."), key, false)
 	t1 := entry.lastAccessNano.Load() // the instant the lookup observed
 	vs.Assume(t1 >= t0)
+	vs.Trace("t0", uint64(t0))
+	vs.Trace("t1", uint64(t1))
+	vs.Trace("deadline", uint64(deadline))
+	vs.TraceBool("resp!=nil", resp != nil)
+	vs.TraceBool("needRefresh", needRefresh)
+	vs.Trace("deadlineNano", uint64(entry.deadlineNano.Load()))
 	fresh := t1 < deadline
 	inStale := optimistic && !fresh && (staleTtl == 0 || t1 <= deadline+int64(staleTtl)*c08Sec)
 	if fresh {
